@@ -498,8 +498,10 @@ class ApplyLinks(Processor):
         # now we add all interactions but not the ones that contain the removed
         # nodes
         for inter_type in self.applied_links:
-            for atoms, (interaction, citation) in self.applied_links[inter_type].items():
-                if not any(atom in self.nodes_to_remove for atom in atoms):
+            # the keys of applied_links also contain the version of the interaction,
+            # so the atoms have to be taken from the interaction itself
+            for interaction, citation in self.applied_links[inter_type].values():
+                if not any(atom in self.nodes_to_remove for atom in interaction.atoms):
                     meta_molecule.molecule.interactions[inter_type].append(interaction)
                     meta_molecule.molecule.citations.update(citation)
 
